@@ -20,7 +20,7 @@ Proof. exact node_points_inv. Qed.
 Print Assumptions C03_node_write.
 
 Theorem C03_edge_write :
-  forall st id par pts st', wf st -> Inv st -> par <> [] -> id <> str_none ->
+  forall st id par pts st', wf st -> Inv st -> par <> [] ->
     edge_points st id par pts = Ok st' -> wf st' /\ Inv st'.
 Proof. exact edge_points_inv. Qed.
 Print Assumptions C03_edge_write.
